@@ -75,7 +75,7 @@ DESIGN_REF = {k: f"DESIGN.md section 4, {k}" for k in META}
 
 
 # checks that have been reviewed (quiet on >= 5 seeds, mutants caught) and may be claimed
-READY = ["C01", "C02", "C03", "C04", "C05", "C06", "C07", "C08", "C11", "C12", "C13", "C14", "C15", "C16", "C17", "C18", "C20"]
+READY = ["C01", "C02", "C03", "C04", "C05", "C06", "C07", "C08", "C09", "C10", "C11", "C12", "C13", "C14", "C15", "C16", "C17", "C18", "C19", "C20"]
 
 
 def main():
